@@ -84,12 +84,12 @@ static void run_docs_coverage() {
 int main(int argc, char **argv) {
     vf::init(argc, argv);
     using namespace c14;
-    { long N = 36 * vf::tier(2, 12);
+    { long N = 36 * vf::tier(4, 30);
       for (long idx = 0; idx < N; ++idx) { if (!vf::selected("equiv_amg", idx)) continue; int p = (int)(idx % 36), ci = p / 9, ri = p % 9;
         switch (ci) { case 0: run_pair_aggregation(ri, idx); break; case 1: run_pair_smoothed_aggregation(ri, idx); break; case 2: run_pair_smoothed_aggr_emin(ri, idx); break; default: run_pair_ruge_stuben(ri, idx); } } }
-    { long N = 9 * vf::tier(3, 20);  for (long idx = 0; idx < N; ++idx) if (vf::selected("equiv_solver", idx)) run_solver_case((int)(idx % 9), idx); }
-    { long N = 8 * vf::tier(2, 10);  for (long idx = 0; idx < N; ++idx) if (vf::selected("equiv_precond", idx)) run_precond_class_case((int)(idx % 8), idx); }
-    { long N = 3 * vf::tier(2, 10);  for (long idx = 0; idx < N; ++idx) if (vf::selected("equiv_make_solver", idx)) run_make_solver_case((int)(idx % 3), idx); }
+    { long N = 9 * vf::tier(6, 60);  for (long idx = 0; idx < N; ++idx) if (vf::selected("equiv_solver", idx)) run_solver_case((int)(idx % 9), idx); }
+    { long N = 8 * vf::tier(4, 30);  for (long idx = 0; idx < N; ++idx) if (vf::selected("equiv_precond", idx)) run_precond_class_case((int)(idx % 8), idx); }
+    { long N = 3 * vf::tier(5, 40);  for (long idx = 0; idx < N; ++idx) if (vf::selected("equiv_make_solver", idx)) run_make_solver_case((int)(idx % 3), idx); }
     if (vf::sub_enabled("param_table") || vf::sub_enabled("docs_coverage")) run_param_tables();
     if (vf::sub_enabled("enum_strings")) run_enum_cases();
     if (vf::sub_enabled("unknown_runtime")) run_unknown_runtime_cases();
